@@ -139,7 +139,7 @@ def observe_list(binary, src):
         js = json.loads(r['stdout']) if r['stdout'].strip() else {}
     except ValueError:
         return dict(error='bad json')
-    return dict(blocks=sorted((b['line'], b['column'], b['name']) for b in js.get('t.js', [])))
+    return dict(blocks=[(b['line'], b['column'], b['name']) for b in js.get('t.js', [])])   # listing order is part of the property
 
 
 def confirm(binary, v, idx):
@@ -173,7 +173,7 @@ def confirm_norm(binary, v, idx):
 
 
 BOUNDS = {
-    'quick': dict(max_comments=3, tmpls=['S', 'E', 'SE', 'nS', 'ES', 'Snt', 'nE', 'SS', 'EE'], sample=220, lmax=6, validate=20),
+    'quick': dict(max_comments=3, tmpls=['S', 'E', 'SE', 'nS', 'ES', 'Snt', 'nE', 'SS', 'EE', 'tntnS', 'SntnS', 'uS'], sample=340, lmax=6, validate=20),
     'thorough': dict(max_comments=4, tmpls=list(TEMPLATES.keys()), sample=3000, lmax=8, validate=80),
 }
 
